@@ -388,3 +388,6 @@ func sioWriteFastq(rs []sioRec, typ, alpha string, enc alphabet.Encoding, qid bo
 }
 
 var sioPhredEncodings = []alphabet.Encoding{alphabet.Sanger, alphabet.Illumina1_3, alphabet.Illumina1_5, alphabet.Illumina1_8, alphabet.Illumina1_9}
+
+// pickS returns one of the strings.
+func pickS(g *hx.Gen, xs ...string) string { return xs[g.Intn(len(xs))] }
